@@ -444,7 +444,14 @@ func BuildSeqHeaderFromVpsSpsPps(vps, sps, pps []byte) ([]byte, error) {
 	return sh, nil
 }
 
-func ParseVps(vps []byte, ctx *Context) error {
+func ParseVps(vps []byte, ctx *Context) (retErr error) {
+	// 同 avc.ParseSps：内容来自对端，bit reader在数据恰好用完时继续读取会越界，兜底转成错误
+	defer func() {
+		if r := recover(); r != nil {
+			retErr = nazaerrors.Wrap(base.ErrHevc)
+		}
+	}()
+
 	if len(vps) < 2 {
 		return nazaerrors.Wrap(base.ErrHevc)
 	}
@@ -478,8 +485,15 @@ func ParseVps(vps []byte, ctx *Context) error {
 	return parsePtl(&br, ctx, vpsMaxSubLayersMinus1)
 }
 
-func ParseSps(sps []byte, ctx *Context) error {
+func ParseSps(sps []byte, ctx *Context) (retErr error) {
 	var err error
+
+	// 同 avc.ParseSps：内容来自对端，bit reader在数据恰好用完时继续读取会越界，兜底转成错误
+	defer func() {
+		if r := recover(); r != nil {
+			retErr = nazaerrors.Wrap(base.ErrHevc)
+		}
+	}()
 
 	if len(sps) < 2 {
 		return nazaerrors.Wrap(base.ErrHevc)
